@@ -3,5 +3,6 @@ EXTENDS MC_Descent
 (* constant-level theorems of Descent.tla, quick subset *)
 ASSUME T8aF(0)
 ASSUME CountsF(0)
+ASSUME T8eF(0)
 MCGraphs == {GraphOf(Z)}
 ======================================================================
